@@ -5,6 +5,7 @@
 package surveyor
 
 //@ struct pipe
+//@   never_closed: sendQ
 //@   immutable: s p closeQ sendQ
 //@
 //@ struct context
@@ -13,6 +14,7 @@ package surveyor
 //@   immutable: s closeQ
 //@
 //@ struct socket
+//@   invariant sendQLen >= 0
 //@   lock Mutex level 20
 //@   guarded_by Mutex: ctxs surveys pipes closed sendQLen
 //@   immutable: master
